@@ -32,6 +32,8 @@ class Result:
 
     def bad(self, rule, key, msg, where=None, data=None):
         self.obligations.append((rule, key, "violated"))
+        if isinstance(where, dict) and "file" in where:
+            where = "%s:%s" % (where["file"], where.get("line"))
         self.violations.append(Violation(rule, key, msg, where, data))
 
     def note(self, s):
